@@ -97,6 +97,7 @@ def gen_plan(seed, tier="quick"):
         "k_filter": k_filter, "reject": reject, "wrot": wrot, "wrot_seed": r.randrange(1 << 30),
         "ns2add": r.choice([0, 0, 0, 7, 100, (-ns) % 512]), "drop_sync": r.random() < 0.3,
         "default_k": nap >= 64 and r.random() < 0.7, "ntr_pad": r.choice([4, 8, min(nap, 12)]),
+        "mixed_gains": fixture == "NP1" and r.random() < 0.35,   # per-channel AP gains (legal imro tables)
         "form": r.choice(["bin", "bin", "cbin"]),           # the input recording may be compressed
         "qc_path": r.random() < 0.2,                        # QC files saved to a separate directory
         "rerun": r.random() < 0.15,      # an earlier plain run left its output and QC files in the same directory
@@ -257,8 +258,13 @@ def _run(plan, base):
     O = world.make_data(plan["data_seed"], ns, nap, saturate=plan["saturate"], amp=plan["amp"],
                         maxint=plan["maxint"], smooth=True)
     rec = base / "rec_oracle"
-    world.write_recording(rec, STEM, plan["fixture"], O)            # pristine copy for the oracle
-    binf = world.write_recording(base / "rec", STEM, plan["fixture"], O)
+    gains = None
+    if plan.get("mixed_gains"):
+        gg = rng_of(plan["seed"] ^ 0x6A1)
+        gains = [gg.choice([250, 500, 500, 1000]) for _ in range(nap)]
+    W_gains = gains
+    world.write_recording(rec, STEM, plan["fixture"], O, ap_gains=gains)            # pristine copy for the oracle
+    binf = world.write_recording(base / "rec", STEM, plan["fixture"], O, ap_gains=gains)
     if plan.get("form") == "cbin":
         s2 = spikeglx.Reader(binf)
         binf = s2.compress_file(keep_original=False, chunk_duration=rng_of(plan["seed"]).choice([0.05, 0.13, 1.0]), n_threads=1)
@@ -285,7 +291,7 @@ def _run(plan, base):
     nbatches = max(0, -(-(ns - plan["nbatch"]) // stride)) + 1
     stats["config"][f"nproc={plan['nproc']}"] = 1
     stats["config"]["kfilt" if _k_filter(plan, W) else "car"] = 1
-    for key in ("append", "drop_sync", "qc_path", "rerun"):
+    for key in ("append", "drop_sync", "qc_path", "rerun", "mixed_gains"):
         if plan.get(key):
             stats["config"][key] = 1
     stats["config"]["input_" + plan.get("form", "bin")] = 1
@@ -306,7 +312,7 @@ def _run(plan, base):
         # optional first run of an append history (its own recording), on each output file
         if plan["append"] or plan.get("rerun"):
             O1 = world.make_data(plan["data_seed"] ^ 0x77, plan["ns_first"], nap, amp=plan["amp"], maxint=plan["maxint"], smooth=True)
-            bin1 = world.write_recording(base / "rec1", STEM, plan["fixture"], O1)
+            bin1 = world.write_recording(base / "rec1", STEM, plan["fixture"], O1, ap_gains=W_gains)
             if plan.get("form") == "cbin":
                 s2 = spikeglx.Reader(bin1)
                 bin1 = s2.compress_file(keep_original=False, chunk_duration=0.1, n_threads=1)
@@ -519,7 +525,7 @@ def _check_reference(plan, O, out, offset, nc_out, fs, rec, sigbase, W):
 
 
 def shrink_candidates(plan):
-    for key, val in (("append", False), ("rerun", False), ("form", "bin"), ("qc_path", False), ("saturate", []), ("wrot", "none"), ("reject", False), ("ns2add", 0),
+    for key, val in (("append", False), ("mixed_gains", False), ("rerun", False), ("form", "bin"), ("qc_path", False), ("saturate", []), ("wrot", "none"), ("reject", False), ("ns2add", 0),
                      ("drop_sync", False), ("default_k", False), ("order", None), ("victim", None), ("p_switch", 0.0),
                      ("k_filter", False)):
         if plan.get(key) != val:
